@@ -1,6 +1,6 @@
 (* History machine with identities: pool entries are (content, identities). *)
 From Coq Require Import ZArith List String Bool PArith.
-From Hgm Require Import NumOps Agg Ops Snap Run Forest.
+From Hgm Require Import NumOps Agg Ops Snap Np Run Forest.
 Import ListNotations.
 Local Open Scope Z_scope.
 
@@ -107,6 +107,14 @@ Section RunId.
           let '(t', n') := extend t a' (nxt w) in
           let w' := {| nxt := n'; pl := seti (pl w) i (a', t') |} in
           (w', obs (oc r) a' w')
+    | IBase (OFillNp i rows) =>
+        let '(a, t) := geti w i in
+        if xcheck t then (w, obs 1 a w)          (* fillnumpy runs the same guard first *)
+        else
+          let '(a', r) := fillnp a rows in
+          let '(t', n') := extend t a' (nxt w) in
+          let w' := {| nxt := n'; pl := seti (pl w) i (a', t') |} in
+          (w', obs (oc r) a' w')
     | IBase (OAdd i j) =>
         match add (fst (geti w i)) (fst (geti w j)) with
         | Ok c => let '(w', _) := push w c in (w', obs 0 c w')
@@ -129,7 +137,7 @@ Section RunId.
     | IBase (OHash i) => (w, [if hashable (fst (geti w i)) then 0 else 1])
     | IBase OSnapAll => (w, pids w)
     | IBase (OToJson _) | IBase (OFromJson _) | IBase (OJsonRT _) | IBase (OEq _ _ _)
-    | IBase (OFillNp _ _) | IBase (OSnapP _) | IBase (OView _ _ _ _) | IBase (ODf _ _) => (w, [9])
+    | IBase (OSnapP _) | IBase (OView _ _ _ _) | IBase (ODf _ _) => (w, [9])
     end.
 
   Fixpoint runi_from (w : world) (ops : list iop) : list (list Z) :=
